@@ -15,6 +15,7 @@ import (
 	"net/http"
 	"net/http/httptest"
 	"os"
+	"os/exec"
 	"path/filepath"
 	"runtime"
 	"runtime/debug"
@@ -521,4 +522,11 @@ func goid() int64 {
 	b = b[len("goroutine "):]
 	id, _ := strconv.ParseInt(string(b[:bytes.IndexByte(b, ' ')]), 10, 64)
 	return id
+}
+
+// copyTree copies a directory tree with modes and times (cp -a).
+func copyTree(src, dst string) {
+	_ = os.MkdirAll(dst, 0o755)
+	cmd := exec.Command("cp", "-a", src+"/.", dst+"/")
+	_ = cmd.Run()
 }
